@@ -33,8 +33,15 @@ class Facts:
                 if t["k"] == "switch" and t.get("discr_ty") in bits:
                     n = bits[t["discr_ty"]]
                     t["targets"] = [[str(int(v) - (1 << n) if int(v) >> (n - 1) else int(v)), bb] for v, bb in t["targets"]]
+        self.type_sizes = self.raw.get("type_sizes", {})
         self.consts = {c["path"]: c for c in self.raw["consts"]}
         self.statics = {s["path"]: s for s in self.raw["statics"]}
+        # an immutable plain-data static (array / scalar table) has a compile-time value exactly like a const: rules that
+        # read named tables find it under the same name whichever keyword declares it
+        for sp, st in self.statics.items():
+            if st.get("value") is not None and not st["mutable"] and st["freeze"] and sp not in self.consts \
+                    and (st["ty"].startswith("[") or st["ty"] in ("f64", "f32", "u8", "u16", "u32", "u64", "usize", "i8", "i16", "i32", "i64", "isize", "bool")):
+                self.consts[sp] = {"path": sp, "ty": st["ty"], "vis": st.get("vis"), "span": st.get("span"), "value": st["value"], "from_static": True}
         self.adts = {a["path"]: a for a in self.raw["adts"]}
         self.root = self.raw["root"]
         self.items = self.raw["items"]
